@@ -33,7 +33,8 @@ class C12(RunProp):
                 mo = ["x"]
                 n = rng.randint(1, 3)
                 vals = [["x", {"l": [rng.randint(0, 4) for _ in range(n)]}]]
-                for p in inner[0]["nodes"][0]["params"][1:]:
+                a_node = next(nd for nd in inner[0]["nodes"] if nd["name"] == "a")
+                for p in a_node["params"][1:]:
                     vals.append([p[0], 1] if p[0] == "c" else [p[0], {"l": [rng.randint(0, 4) for _ in range(n)]}])
                     if p[0] != "c":
                         mo.append(p[0])
